@@ -15,204 +15,11 @@ import re
 
 from . import mir
 
-Z = (-1, 0)
-O = (-1, 1)
+from .vgraph import TermBank, Z, O
 
 
-class TermBank:
-    def __init__(self):
-        self.nodes = {}
-        self.defs = []
-
-    def intern(self, key):
-        i = self.nodes.get(key)
-        if i is None:
-            i = len(self.defs)
-            self.nodes[key] = i
-            self.defs.append(key)
-        return i
-
-    def inp(self, name, w):
-        t = self.intern(("in", name, w))
-        return tuple((t, i) for i in range(w))
-
-    def const(self, v, w):
-        return tuple(O if (v >> i) & 1 else Z for i in range(w))
-
-    def whole(self, lane):
-        """tid if lane is exactly all bits of one term in order, else None"""
-        t = lane[0][0]
-        if t < 0:
-            return None
-        for i, b in enumerate(lane):
-            if b != (t, i):
-                return None
-        if len(lane) != self.width(t):
-            return None
-        return t
-
-    def width(self, t):
-        d = self.defs[t]
-        return d[2] if d[0] == "in" else d[1]
-
-    def is_const(self, lane):
-        return all(b[0] == -1 for b in lane)
-
-    def cval(self, lane):
-        return sum((1 << i) for i, b in enumerate(lane) if b == O)
-
-    # ---- bitwise
-    def xor(self, a, b):
-        w = len(a)
-        out = []
-        hard = False
-        for x, y in zip(a, b):
-            if x == Z:
-                out.append(y)
-            elif y == Z:
-                out.append(x)
-            elif x == y:
-                out.append(Z)
-            elif x[0] == -1 and y[0] == -1:
-                out.append(O if x != y else Z)
-            else:
-                hard = True
-                break
-        if not hard:
-            return tuple(out)
-        ops = []
-        for l in (a, b):
-            t = self.whole(l)
-            if t is not None and self.defs[t][0] == "xor":
-                ops.extend(self.defs[t][2])
-            else:
-                ops.append(l)
-        # cancel pairs, fold constants
-        cnt = {}
-        c = 0
-        for l in ops:
-            if self.is_const(l):
-                c ^= self.cval(l)
-            else:
-                cnt[l] = cnt.get(l, 0) ^ 1
-        ops = sorted(l for l, n in cnt.items() if n)
-        if c:
-            ops.append(self.const(c, w))
-        if not ops:
-            return self.const(0, w)
-        if len(ops) == 1:
-            return ops[0]
-        t = self.intern(("xor", w, tuple(ops)))
-        return tuple((t, i) for i in range(w))
-
-    def or_(self, a, b):
-        w = len(a)
-        out = []
-        for x, y in zip(a, b):
-            if x == Z:
-                out.append(y)
-            elif y == Z:
-                out.append(x)
-            elif x == y:
-                out.append(x)
-            elif x == O or y == O:
-                out.append(O)
-            else:
-                t = self.intern(("or", w, tuple(sorted((a, b)))))
-                return tuple((t, i) for i in range(w))
-        return tuple(out)
-
-    def and_(self, a, b):
-        w = len(a)
-        out = []
-        for x, y in zip(a, b):
-            if x == Z or y == Z:
-                out.append(Z)
-            elif x == O:
-                out.append(y)
-            elif y == O:
-                out.append(x)
-            elif x == y:
-                out.append(x)
-            else:
-                t = self.intern(("and", w, tuple(sorted((a, b)))))
-                return tuple((t, i) for i in range(w))
-        return tuple(out)
-
-    def not_(self, a):
-        return self.xor(a, self.const((1 << len(a)) - 1, len(a)))
-
-    def add(self, a, b):
-        w = len(a)
-        if a == b:
-            return (Z,) + a[:-1]
-        ops = []
-        for l in (a, b):
-            t = self.whole(l)
-            if t is not None and self.defs[t][0] == "add":
-                ops.extend(self.defs[t][2])
-            else:
-                ops.append(l)
-        c = 0
-        rest = []
-        for l in ops:
-            if self.is_const(l):
-                c = (c + self.cval(l)) & ((1 << w) - 1)
-            else:
-                rest.append(l)
-        rest.sort()
-        if c:
-            rest.append(self.const(c, w))
-        if not rest:
-            return self.const(0, w)
-        if len(rest) == 1:
-            return rest[0]
-        t = self.intern(("add", w, tuple(rest)))
-        return tuple((t, i) for i in range(w))
-
-    def rotr(self, a, k):
-        k %= len(a)
-        return a[k:] + a[:k]
-
-    def shr(self, a, k):
-        return a[k:] + (Z,) * min(k, len(a)) if k < len(a) else (Z,) * len(a)
-
-    def shl(self, a, k):
-        return ((Z,) * k + a[: len(a) - k]) if k < len(a) else (Z,) * len(a)
-
-    def opaque(self, name, w, args):
-        t = self.intern(("op", w, name, tuple(args)))
-        return tuple((t, i) for i in range(w))
-
-    def show(self, lane, depth=3):
-        t = self.whole(lane)
-        if t is not None:
-            d = self.defs[t]
-            if d[0] == "in":
-                return d[1]
-            if depth <= 0:
-                return "#%d" % t
-            if d[0] in ("xor", "add", "or", "and"):
-                return "%s(%s)" % (d[0], ", ".join(self.show(x, depth - 1) for x in d[2]))
-            return "%s#%d" % (d[0], t)
-        if self.is_const(lane):
-            return hex(self.cval(lane))
-        # rotation of a whole term?
-        w = len(lane)
-        for k in range(1, w):
-            r = lane[w - k:] + lane[: w - k]
-            if self.whole(r) is not None:
-                return "rotr(%s,%d)" % (self.show(r, depth), k)
-        segs = []
-        i = 0
-        while i < w:
-            b = lane[i]
-            j = i
-            while j + 1 < w and (lane[j + 1][0] == b[0]) and (b[0] == -1 and lane[j + 1] == b or b[0] != -1 and lane[j + 1][1] == lane[j][1] + 1):
-                j += 1
-            segs.append(("%s" % ("0" if b == Z else "1") if b[0] == -1 else "#%d[%d..]" % (b[0], b[1])) + "x%d" % (j - i + 1))
-            i = j + 1
-        return "{" + " ".join(segs) + "}"
+def mir_index(name):
+    return ("ops::Index" in name) and (name.endswith("::index") or name.endswith("::index_mut"))
 
 
 class Unsupported(Exception):
@@ -329,6 +136,23 @@ class Machine:
             if isinstance(p, tuple) and p[0] == "ptr" and isinstance(v, tuple) and v and isinstance(v[0], tuple):
                 self.store(p, v)
                 return
+        p0 = env.get(l)
+        if isinstance(p0, tuple) and p0 and p0[0] == "ptr" and projs[0] == "*" and len(projs) == 2 and projs[1][0] in ("i", "c"):
+            m = re.match(r"^[&*](?:mut |const )?\[(?:u|i)(\d+)(?:; \d+)?\]$", fn.locals[l])
+            if m:
+                w = int(m.group(1))
+                k = self.pkey(fn, env, projs[1])
+                self.store(("ptr", p0[1], p0[2] + k * (w // 8)), self.scalar_bits(v, w))
+                return
+        if isinstance(p0, tuple) and p0 and p0[0] in ("lref", "aslice") and projs[0] == "*":
+            cont, base = self.container(p0)
+            cur = cont
+            rest = projs[1:]
+            for p in rest[:-1]:
+                cur = self.proj(fn, env, cur, p, create=True)
+            k = self.pkey(fn, env, rest[-1])
+            cur[(k + base) if len(rest) == 1 else k] = v
+            return
         # tuple / array element of a local aggregate
         cur = env.setdefault(l, {})
         for p in projs[:-1]:
@@ -340,6 +164,12 @@ class Machine:
             cur[key] = v
         else:
             raise Unsupported("store into %r" % (place,))
+
+    def container(self, ref):
+        """(dict, base index) behind a reference to a local array or a sub-slice of it"""
+        if ref[0] == "lref":
+            return ref[1][ref[2]], 0
+        return ref[1], ref[2]
 
     def pkey(self, fn, env, p):
         if p[0] == "f":
@@ -359,6 +189,8 @@ class Machine:
                 return cur[1][cur[2]]
             return cur
         k = self.pkey(fn, env, p)
+        if isinstance(cur, tuple) and cur and cur[0] == "aslice":
+            return cur[1][cur[2] + k]
         if isinstance(cur, dict):
             if k not in cur:
                 if create:
@@ -406,6 +238,11 @@ class Machine:
                 self.mem[base] = (lambda fl: (lambda off, nb: fl[8 * off: 8 * off + 8 * nb]))(flat)
                 self.consts_read.append((base, tuple(v)))
                 return ("ptr", base, 0)
+            if isinstance(v, list) and not ty.startswith("&"):
+                def conv(x):
+                    return {i: conv(y) for i, y in enumerate(x)} if isinstance(x, list) else x
+                self.consts_read.append((d.get("def"), None))
+                return conv(v)
             if isinstance(v, dict) and v.get("k") == "bytes" and ty.startswith("&") and len(v.get("hex", "")) == 2:
                 return ("cref", int(v["hex"], 16))
             if "def" in d or "promoted" in d:
@@ -463,7 +300,7 @@ class Machine:
                 if r is None:
                     raise Unsupported("int op " + op)
                 return {0: r, 1: False} if wo else r
-            raise Unsupported("symbolic scalar op %s" % op)
+            return self.sym_binop(op, wo, a, b)
         if k == "agg":
             ops = [self.operand(fn, env, o) for o in rv[2]]
             return {i: o for i, o in enumerate(ops)}
@@ -488,8 +325,39 @@ class Machine:
                 return -v
             if isinstance(v, bool) and rv[1] == "Not":
                 return not v
+            if isinstance(v, tuple) and v and isinstance(v[0], tuple) and rv[1] == "Not":
+                return self.B.not_(v)
             raise Unsupported("unary " + rv[1])
         raise Unsupported("rvalue " + k)
+
+    def sym_binop(self, op, wo, a, b):
+        B = self.B
+        symw = len(a) if isinstance(a, tuple) else len(b)
+        if op in ("Shl", "Shr"):
+            if not isinstance(b, int) or isinstance(b, bool):
+                raise Unsupported("shift by symbolic amount")
+            return (B.shl if op == "Shl" else B.shr)(a, b) if isinstance(a, tuple) else None
+        x = a if isinstance(a, tuple) else B.const(int(a) & ((1 << symw) - 1), symw)
+        y = b if isinstance(b, tuple) else B.const(int(b) & ((1 << symw) - 1), symw)
+        if len(x) != len(y):
+            raise Unsupported("width mismatch in %s" % op)
+        if op == "BitXor":
+            r = B.xor(x, y)
+        elif op == "BitAnd":
+            r = B.and_(x, y)
+        elif op == "BitOr":
+            r = B.or_(x, y)
+        elif op == "Add":
+            r = B.add(x, y)
+            if wo:
+                self.trace.append(("checked-add-assumed-no-overflow",))
+        elif op == "Sub":
+            r = B.sub(x, y)
+            if wo:
+                self.trace.append(("checked-sub-assumed-no-overflow",))
+        else:
+            raise Unsupported("symbolic scalar op %s" % op)
+        return {0: r, 1: False} if wo else r
 
     # ---- calls
     def do_call(self, fn, c, a):
@@ -497,7 +365,7 @@ class Machine:
         short = nm.split("::")[-1]
         imm = [int(x) for x in (c.ga or []) if isinstance(x, str) and re.match(r"^-?\d+$", x)]
         B = self.B
-        if c.local and self.P.fn_opt(nm) is not None and not nm.startswith("core::"):
+        if c.local and self.P.fn_opt(nm) is not None and not nm.startswith("core::") and not re.match(r"^cryptoutil::(read|write)_u(32|64)v_(le|be)$", nm):
             return self.call_fn(self.P.fn(nm), a)
         if re.search(r"_ptr::<impl \*(const|mut) T>::add$", nm):
             sz = {"core::arch::x86_64::__m128i": 16, "core::arch::x86_64::__m256i": 32, "u8": 1, "u32": 4, "u64": 8}.get(c.ga[0])
@@ -637,6 +505,74 @@ class Machine:
         if m:
             w = int(m.group(2))
             return lanes(a[0], w)[imm[0]]
+        m = re.match(r"^core::num::<impl ([ui])(\d+)>::(wrapping_add|wrapping_sub|rotate_right|rotate_left|swap_bytes|to_be|to_le|from_be|from_le)$", nm)
+        if m:
+            w = int(m.group(2))
+            op = m.group(3)
+            x = self.scalar_bits(a[0], w)
+            if op in ("rotate_right", "rotate_left"):
+                if not isinstance(a[1], int):
+                    raise Unsupported("rotation by symbolic amount")
+                return B.rotr(x, a[1]) if op == "rotate_right" else B.rotl(x, a[1])
+            if op in ("wrapping_add", "wrapping_sub"):
+                y = self.scalar_bits(a[1], w)
+                return B.add(x, y) if op == "wrapping_add" else B.sub(x, y)
+            if op in ("swap_bytes", "to_be", "from_be"):
+                return cat(lanes(x, 8)[::-1])
+            return x
+        m = re.match(r"^cryptoutil::(read|write)_u(32|64)v_(le|be)$", nm)
+        if m:
+            # summary of the crate's word (de)serialisers: dst[i] = word i of src in the named byte order
+            w = int(m.group(2))
+            nbytes = w // 8
+            if m.group(1) == "read":
+                dcont, dbase, dn = self.seq(a[0])
+                for i in range(dn):
+                    bits = self.read_bytes(a[1], i * nbytes, nbytes)
+                    if m.group(3) == "be":
+                        bits = cat(lanes(bits, 8)[::-1])
+                    dcont[dbase + i] = bits
+            else:
+                scont, sbase, sn = self.seq(a[1])
+                for i in range(sn):
+                    bits = self.scalar_bits(scont[sbase + i], w)
+                    if m.group(3) == "be":
+                        bits = cat(lanes(bits, 8)[::-1])
+                    self.write_bytes(a[0], i * nbytes, bits)
+            self.trace.append(("summary", nm))
+            return None
+        if mir_index(nm) and isinstance(a[0], tuple) and a[0] and a[0][0] in ("lref", "aslice", "ptr") and isinstance(a[1], dict):
+            r = a[1]
+            if a[0][0] == "ptr":
+                ty = (c.ga or [""])[0]
+                mm = re.match(r"^\[(?:u|i)(\d+)(?:; \d+)?\]$", ty)
+                if not mm:
+                    raise Unsupported("range index of %s" % ty)
+                sz = int(mm.group(1)) // 8
+                kind = (c.ga or ["", ""])[-1]
+                lo = 0 if ("RangeTo" in kind or "RangeFull" in kind) else r[0]
+                return ("ptr", a[0][1], a[0][2] + lo * sz)
+            cont, base = self.container(a[0])
+            n = (a[0][3] - a[0][2]) if a[0][0] == "aslice" else len(cont)
+            kind = (c.ga or ["", ""])[-1]
+            lo, hi = 0, n
+            if "RangeFrom" in kind:
+                lo = r[0]
+            elif "RangeTo" in kind:
+                hi = r[0]
+            elif "RangeFull" in kind:
+                pass
+            else:
+                lo, hi = r[0], r[1]
+            return ("aslice", cont, base + lo, base + hi)
+        if re.search(r"slice::<impl \[T\]>::copy_from_slice$", nm):
+            w = int(re.match(r"^[ui](\d+)$", c.ga[0]).group(1))
+            dcont, dbase, dn = self.seq(a[0])
+            for i in range(dn):
+                dcont[dbase + i] = self.elem(a[1], i, w)
+            return None
+        if re.search(r"slice::<impl \[T\]>::len$", nm):
+            return self.seq(a[0])[2]
         if re.search(r"slice::<impl \[T\]>::as_(mut_)?ptr$", nm):
             return a[0]
         if re.search(r" as core::cmp::PartialEq>::eq$", nm):
@@ -660,6 +596,35 @@ class Machine:
                 return ("opt", 1, {0: v})
             return ("opt", 0, {})
         raise Unsupported("call %s" % nm)
+
+    def seq(self, ref):
+        """(container dict, base index, length) of a reference to a local array / sub-slice"""
+        if isinstance(ref, tuple) and ref and ref[0] == "lref":
+            cont = ref[1][ref[2]]
+            return cont, 0, len(cont)
+        if isinstance(ref, tuple) and ref and ref[0] == "aslice":
+            return ref[1], ref[2], ref[3] - ref[2]
+        raise Unsupported("sequence %r" % (ref[:1] if isinstance(ref, tuple) else ref,))
+
+    def elem(self, ref, i, w):
+        if isinstance(ref, tuple) and ref and ref[0] == "ptr":
+            return self.load(("ptr", ref[1], ref[2] + i * (w // 8)), w // 8)
+        cont, base, n = self.seq(ref)
+        return self.scalar_bits(cont[base + i], w)
+
+    def read_bytes(self, ref, off, n):
+        if isinstance(ref, tuple) and ref and ref[0] == "ptr":
+            return self.load(("ptr", ref[1], ref[2] + off), n)
+        cont, base, ln = self.seq(ref)
+        return cat(self.scalar_bits(cont[base + off + k], 8) for k in range(n))
+
+    def write_bytes(self, ref, off, bits):
+        if isinstance(ref, tuple) and ref and ref[0] == "ptr":
+            self.store(("ptr", ref[1], ref[2] + off), bits)
+            return
+        cont, base, ln = self.seq(ref)
+        for k, by in enumerate(lanes(bits, 8)):
+            cont[base + off + k] = by
 
     def scalar_bits(self, v, w):
         if isinstance(v, bool):
